@@ -1372,13 +1372,17 @@ class InstrumentationTransformer:
                     continue
 
                 # Skip nodes that have at least one instruction that should be covered and
-                # whose last instruction is either not a conditional statement or a conditional
-                # statement that should be covered. `should_cover_conditional_statement`
-                # defaults to True if there is no conditional statement at the line.
+                # whose last instruction is on a line that should be covered and is either not
+                # a conditional statement or a conditional statement that should be covered.
+                # `should_cover_conditional_statement` defaults to True if there is no
+                # conditional statement at the line.
                 if (
                     (last_instr := node.try_get_instruction(-1)) is None
                     or not isinstance(last_instr.lineno, int)
-                    or ast_info.should_cover_conditional_statement(last_instr.lineno)
+                    or (
+                        ast_info.should_cover_conditional_statement(last_instr.lineno)
+                        and ast_info.should_cover_line(last_instr.lineno)
+                    )
                 ) and (
                     any(
                         not isinstance(instr.lineno, int)
